@@ -1122,7 +1122,7 @@ class SMTPClient(basic.LineReceiver, policies.TimeoutMixin):
         return transformed
 
     def finishedFileTransfer(self, lastsent):
-        if lastsent != b"\n":
+        if lastsent and lastsent != b"\n":
             line = b"\r\n."
         else:
             line = b"."
